@@ -237,6 +237,16 @@ Proof.
 Qed.
 Print Assumptions C05_custom_lookup.
 
+(* The coordinates _add_product_parameters attaches are the labels the specification (spec_label, used by
+   the check on the implementation's output) expects: the value under the parameter's name and, for a
+   vector-valued parameter, its position under <name>_id. *)
+Theorem C05_product_label_is_spec : forall names en ix vals,
+  NoDup (map p_key en) -> List.length vals = List.length en -> List.length ix = List.length en ->
+  product_label names (types_of en) ix (combine (map p_key en) vals)
+  = spec_label Product names en ix (combine (map p_key en) vals).
+Proof. exact product_label_is_spec. Qed.
+Print Assumptions C05_product_label_is_spec.
+
 (* where the coordinates attached in sequential / custom mode are the specification's labels *)
 Theorem C05_custom_label_is_spec : forall names i params,
   NoDup (map (fun kv => name_of names (fst kv)) params) ->
